@@ -70,6 +70,11 @@ CHECKS = {
          "Every JoinedEvent returned by process_left/process_right/update_watermark (or delivered to the manager's handler) is tagged with harness-assigned unique ids and compared with the reference inner join of the events that have arrived: nothing outside the reference, nothing twice, and a reference pair may be missing only if its first-arrived side was eligible for eviction (watermark - ts > window) at a watermark update before the partner arrived; without watermark updates the emitted multiset must equal the reference exactly and emitted sets are also compared directly between merges. For every generated pair (<=4+4 events, 1-3 keys, keyless events, ts 0..6, windows 0/1/2/5 s, condition true or l.v<=r.v) all <=70 merges are run; all pairs of <=2+2 events over a stated small domain are enumerated with every placement and value of one watermark update. Held = no listed run broke a clause.",
          "Window and timestamps in whole seconds (the node's as_secs() convention; the millisecond wording is not judged). Unique event ids assumed. Which eligible events are evicted is not prescribed. Only Inner + TimeWindow; outer joins, count/session windows, self-joins and watermark regress are outside the statement.",
          "DESIGN.md §5 C14"),
+ "C15": ("exploration",
+         "model-based step monitor over exhaustive and random operation sequences (ordered list + version model); linearizability checking (WGL search, memoised) of recorded 3-thread histories under seeded schedule perturbation (hook H5); Miri many-seeds and a ThreadSanitizer build of the same generator in the thorough tier; deadlock watchdog",
+         "Sequentially, every sequence of the 25 mutating operations (4 names x 3 saliences) up to length 5 (thorough 6) and random sequences up to length 8 (some to 16, plus long 48-name sequences) are run on a real KnowledgeBase; return value and version are checked after every operation and every read view (get_rule for all names, get_rules, get_rule_names, rule_count, get_rules_by_salience+get_rule_by_index, get_statistics, version) is compared with an ordered-list+version model of the statement. Concurrently, random programs of 3 threads x 4 operations (all ten operation kinds, 2-3 names) run on one Arc<KnowledgeBase> with seeded yields/sleeps at the library's schedule points; every recorded history (client-side call/return stamps from one atomic clock) must have a linearisation that the model accepts. Thorough repeats the generator under Miri's seeded scheduler (data races, deadlocks, UB are violations) and in a ThreadSanitizer build. Held = no explored sequence, history or sanitizer run broke a clause.",
+         "Exhaustive only to length 5/6 of the stated 8 (25^8 = 1.5·10^11 is out of reach by execution); lengths 6..8 are sampled. Schedules are those reached by perturbed native runs, Miri's 64 seeds and TSan stress, not all schedules. The version need only grow, not by one; on missing-name operations it may stay or grow. get_rules_by_salience + get_rule_by_index is two calls and is judged sequentially only. A schedule-dependent violation is replayed by re-executing its program up to 30 000 times. Miri/TSan build failures or timeouts are inconclusive.",
+         "DESIGN.md §5 C15"),
  "C16": ("exploration",
          "four differential monitors over generated op histories and a hostile value domain: indexed vs never-indexed alpha memory, beta lookup vs scan of live facts, memoised vs direct node evaluation, conclusion index vs scan of enabled rules' Set actions; exhaustive over all value pairs of the domain",
          "After every operation of every generated history (<=10 ops) the optimised answer is compared with the plain one: AlphaMemoryIndex::filter for every field x every domain value against a shadow instance that never creates an index; BetaMemoryIndex::lookup for every printed key against the harness's list of live facts; every MemoizedEvaluator::evaluate against evaluate_typed on fact sets that print alike but differ in type; ConclusionIndex::find_candidates >= enabled present rules with a Set on the goal's field, for goals with every documented operator, spacing, string literals holding operator text, and negation. All (stored, probe) value pairs and all print-alike pairs x operators x literals are enumerated. Held = no comparison broke, apart from the listed known findings.",
@@ -85,6 +90,11 @@ CHECKS = {
          "Runs the real ModuleManager on every operation sequence of a stated length over a reduced 36-operation alphabet (create/delete/export/add-rule/imports incl. self-imports, other types and patterns, MAIN, re-exports) from three start prefixes, and on random sequences of up to 7 operations over the full alphabet, with deletions and re-creations of imported modules. After every operation it checks that declarations and import_graph among existing modules are acyclic, that a refused import changed nothing, that every visibility query on an existing module answers, and that is_rule_visible / get_visible_rules lie between a strict and a liberal reading of the statement (identical when no re-export or outlived declaration is involved) and agree with each other. Held = no step of any explored sequence broke a clause other than the pinned known findings.",
          "The model follows the Ok/Err of create/delete/add operations instead of prescribing them; acceptance of acyclic imports and template-visibility values are not demanded; Module::add_import and the GRL parser front-end are not driven; a defect whose only symptom carries one of the open signatures would be masked.",
          "DESIGN.md §5 C18"),
+ "C19": ("exploration",
+         "differential monitor: execute_parallel with parallelism on (repeated under seeded schedule perturbation, hook H5) vs parallelism off vs an independent three-valued reference evaluation, plus structural clauses on execution_contexts; exhaustive chunking grid + random rule sets; deadlock watchdog; Miri many-seeds and a ThreadSanitizer build of the same generator in the thorough tier",
+         "Rule sets of 1-24 rules in the typed core (int/string/bool field vs literal under && / || / !, salience ties, disabled rules; one third written as GRL text and parsed by the real parser) are executed by ParallelRuleEngine once with parallelism off and 4 (thorough 8) times with parallelism on for max_threads 1-16 and min_rules_per_thread 1-4 — the whole (rules per level x max_threads x min_rules_per_thread) grid once, random configurations beyond — while seeded yields/sleeps at the worker-loop schedule points vary the interleaving. Every result must be Ok, list every enabled rule exactly once and nothing else, report evaluated = #enabled and fired = #fired contexts, agree with the reference verdict where defined, keep higher salience first; parallel and one-by-one results must have the same fired set and counts. A watchdog decides 'does not return' on a no-thread-runnable/no-CPU/no-progress criterion. Thorough repeats small cases under Miri's seeded scheduler and the full generator in a ThreadSanitizer build (reports = violations). Held = no explored run broke a clause.",
+         'Schedules are those reached by perturbed native runs, 48 Miri seeds and TSan stress, not all schedules. Generated actions write only Out.* keys no condition reads (Facts is shared between workers, so other rule sets have legitimately schedule-dependent verdicts and are outside the statement). A leaf on a missing field is Undefined for the reference (the parallel evaluator answers false there, also for !=; differential comparison still applies). Order inside a salience level is unconstrained. Exists/forall/accumulate/function-call conditions and custom functions in conditions are not generated. Miri/TSan build failures or timeouts are inconclusive.',
+         "DESIGN.md §5 C19"),
  "C20": ("fault_enumeration",
          "reference-model history monitor under an LD_PRELOAD virtual clock (exhaustive small scope + seeded random, also real clock) + strace fault enumeration of a real checkpoint() call (SIGKILL before every syscall, ENOSPC/EIO on every syscall, every byte-prefix / zero-filled tail of the state file) with a fresh-store restore oracle",
          "Runs the real StateStore (file backend) on every op sequence of a stated 21-letter alphabet up to length 5/6 and on random histories of up to 10 ops over 3 keys, comparing every public view with an independent model after each op and the store with the recorded snapshot after each restore; then kills a child on entry to each syscall its checkpoint() issues (observed with strace), fails each of those syscalls with ENOSPC/EIO and cuts the state file at every byte, each time requiring that fresh stores restore all earlier checkpoints exactly and the interrupted one completely or not at all. Held = none of the executions listed in the evidence broke a clause.",
@@ -126,6 +136,16 @@ def main():
             "add_only": True,
         },
         "engines": [{
+            "name": "rre-verif-miri",
+            "path": "/verif/miri",
+            "serves_properties": ["C15", "C19"],
+            "kind_free_text": "second tiny crate (path-dep on /repo with verif-hooks only) holding the Miri / ThreadSanitizer workloads of C15 and C19; shares generator and oracle with the native binaries via #[path]; thorough tier only, built on demand into /verif/target/miri and /verif/target/tsan",
+        }, {
+            "name": "rre-verif-miri-bc",
+            "path": "/verif/miri-bc",
+            "serves_properties": ["C09"],
+            "kind_free_text": "Miri workloads for the raw-pointer queue of the BFS backward search (thorough tier of C09)",
+        }, {
             "name": "rre-verif",
             "path": "/verif/harness",
             "serves_properties": [c["property_id"] for c in checks],
